@@ -178,6 +178,19 @@ def run(ck):
         U2.set_dense_dt(2 * Nd)
         U2.calculate()
         d2 = numpy.array(U2.data).reshape(Nt, nn, nn)
+        # a history on ONE object: the internal step is changed after a calculation and everything is calculated again
+        try:
+            U.set_dense_dt(2 * Nd)
+            U.calculate()
+            d2s = numpy.array(U.data).reshape(Nt, nn, nn)
+            ck.case(("recalc", n, Nt, step, Nd, H.tobytes()), nontrivial=bool(coupled), kind="recalculate-after-set_dense_dt", Ndense=2 * Nd)
+            if numpy.abs(d2s - d2).max() > 1e-9 * sc:
+                ck.fail("recalculate:set_dense_dt", "calculate() after set_dense_dt() on an object that was calculated before differs from a fresh "
+                        "object with the same internal step", dict(inp, Ndense_then=2 * Nd), float(numpy.abs(d2s - d2).max()))
+            if 2 * Nd <= 6 and h % 3 == 0:
+                emit("evolt %d 4 %d %d %s 0 %s %s" % (n, 2 * Nd, Nt, cfrac(step), cv(H), cv(R)), numpy.array(U.data))
+        except Exception as e:
+            ck.fail("raises:recalculate", "set_dense_dt + calculate on a calculated object raised %r" % (e,), inp)
         x1 = float(numpy.linalg.norm(Lv * step / Nd, 2)); x2 = float(numpy.linalg.norm(Lv * step / (2 * Nd), 2))
         for i in range(Nt):
             b = SY.trunc_bound(x1, 4, i * Nd) + SY.trunc_bound(x2, 4, 2 * i * Nd) + 1e-9
